@@ -29,6 +29,7 @@ type Expr struct {
 	Mode string `json:"mode"`
 	N1   string `json:"n1"`
 	N2   string `json:"n2"`
+	Src  string `json:"src,omitempty"` // if set, this text is used instead of a rendering of the tree (which must be what it parses to)
 }
 
 var (
@@ -157,6 +158,9 @@ var opText = map[string]string{"==": "==", "!=": "!=", "in": "in", "notin": "not
 
 // Render spells the tree as bexpr source in the given style.
 func Render(e *Expr, st Style) (string, error) {
+	if e.Src != "" {
+		return e.Src, nil
+	}
 	sp, osp := " ", " "
 	switch st.WS {
 	case "wide":
